@@ -59,3 +59,10 @@ pub proof fn lemma_at_below(b: Seq<u8>, p: int, w: Seq<u8>, q: int, n: int)
     reveal(put);
     assert(at(put(b, p, w), q, n) =~= at(b, q, n));
 }
+// two consecutive all-or-error writes compose into one (used by the write_all / io::copy transcriptions)
+pub proof fn lemma_wr_n_compose<T: Dev>(a: &T, b: &T, c: &T, w1: Seq<u8>, w2: Seq<u8>)
+    requires a.g_dev(), 0 <= a.g_pos(), wr_n(a, b, true, w1), wr_n(b, c, true, w2)
+    ensures wr_n(a, c, true, w1 + w2)
+{
+    lemma_put_put(a.g_bytes(), a.g_pos(), w1, a.g_pos() + w1.len(), w2);
+}
